@@ -3,7 +3,7 @@ every call of real runs) is replayed through the Lean model KawinV.MB, and the b
 evaluated directly on the implementation's recorded values."""
 import math
 import numpy as np
-import vlib, kwnruns
+import vlib, kwnruns, kwnfull
 from vlib import Result, enc_list, f2b, Toks, close, enc_bool
 
 PROP = 'C01'
@@ -13,7 +13,7 @@ META = {
     'technique': 'Lean 4 proof (algebraic law + induction over the run) + trace refinement of real runs against the model',
     'design_ref': 'DESIGN.md section 6, C01',
 }
-LEAN_MODULES = ['KawinV.Props.C01']
+LEAN_MODULES = ['KawinV.Props.C01', 'KawinV.Props.KWNFull']
 MONITORED = ['no-diffusion mode: fconc equals the PSD sum only if x_beta is constant in time (not claimed)']
 ASSUMPTIONS = ['total precipitate fraction < 1 for the balance identity (the saturated branch is a separate theorem)']
 TRUSTED = ['run-time wrappers of tools/lib/kwnruns.py log inputs/outputs of _calcMassBalance faithfully']
@@ -420,6 +420,11 @@ def corr(ctx, oracle_only=False, nsynth=None):
             for r in recs:
                 if brief(r) == v['case'] or (isinstance(v['case'], dict) and v['case'].get('t') == r['t'] and v['case'].get('tag') == r['tag'] and v['case'].get('n') == r['n']):
                     v['case'] = full_case(r); break
+    # the COMPOSED step (KWNFull.eulerStep, theorem eulerStep_conserves): every accepted step of real runs replayed with its
+    # captured backend answers; the complete exit state incl. the recorded row must be the implementation's
+    if not oracle_only:
+        kwnfull.refine_scenarios(ctx, res, PROP, [('alzr-small-grid', ctx.n(250, 1200)), ('nicral', ctx.n(50, 300)),
+                                                  ('alzr-nodiff', ctx.n(120, 400))] + ([('almgsi-2phase-loaded', 200)] if ctx.thorough else []))
     vlib.finish_guard(res)
     return res
 
